@@ -265,6 +265,7 @@ func runAPI(name string, x *opCtx, data []byte) (out Outcome) {
 			}
 		}
 	}()
+	defer panicOnFault()() // a memory fault (guarded inputs, guard.go) is a panic, not the end of the process
 	return op.run(x, data)
 }
 
